@@ -62,8 +62,8 @@ def plot_diagrams(
         of a subplot, set show=False and call plt.show() only once at the end.
     """
 
-    ax = ax or plt.gca()
     plt.style.use(colormap)
+    ax = ax or plt.gca()
 
     xlabel, ylabel = "Birth", "Death"
 
